@@ -178,6 +178,14 @@ def main(replay=None):
                                 "objNull", "configFile", "1; 2", "", " ", "((", "str nil", "private _a = 1", "throw 1", "exitWith {1}", "breakOut \"x\"",
                                 "createHashMap", "text \"a\"", "nil * nil", "[nil]", "call {nil}", "sqrt -1", "1e39 * 10"]):
             add("eval:%d" % k, ("x = __EVAL(%s);\ny = [__EVAL(%s)];\n" % (ex, ex)).encode("latin-1"), routes="PP,PREPROCESS,DEF")
+        # ---- a carriage return that is not part of CR LF, in every place of a preprocessor text: a macro body that is used, a macro
+        # argument, a call's argument list, a directive line, a string, a comment, between tokens (old Mac line ends)
+        for k, tx in enumerate(["#define M 1 \r+ 2\nx = M;\n", "#define M(a) a\r\nx = M(1);\n", "#define M(a) (a \r+ a)\ny = M(2) + M(3);\n",
+                                "#define M(a,b) a b\nx = M(1\r,2);\n", "#define M 1\rx = M;\n", "#define\rM 1\nx = M;\n", "#ifdef\rM\nx = 1;\n#endif\n",
+                                "x = \"a\rb\";\n", "// c\rx = 1;\n", "/* c\r */ x = 1;\n", "x\r=\r1;\r", "#define A B\r\n#define B A \r 1\nx = A;\n",
+                                "#define M \r\nx = M;\n", "#define M(a) #a\nx = M(q\rq);\n", "#define M a\\\r\nb\nx = M;\n", "#include \"h\r.hpp\"\n",
+                                "#define M 1 \r\r\r 2\nx = [M, M];\n", "\r#define M 1\n\rx = M;\r\n"]):
+            add("cr:%d" % k, tx.encode("latin-1"))
         files = corpus_files()
         # ---- whole files and their prefixes
         pre_cap = None if thorough else 120
